@@ -60,6 +60,10 @@ def cases() -> list[dict]:
     one_ns = [("iri", P.sstr(P.Atom("one.scheme", nosep=True), "/", P.Atom("one.path", nosep=True), "#", P.Atom(f"l{i}", nosep=True))) for i in range(3)]
     out.append(dict(table="prefix(single namespace)", physical=1, size=1, preset=(8, 1, 8), stmts=[tuple(one_ns), tuple(reversed(one_ns))], integ="generic", control=True))
     out.append(dict(table="prefix(single namespace)", physical=1, size=1, preset=(8, 1, 8), stmts=[tuple(one_ns), tuple(reversed(one_ns))], integ="rdflib", control=True))
+    # the same with local names that contain '/' after the '#': still one namespace (the '#' split has priority)
+    frag = [("iri", P.sstr(P.Atom("one.scheme", nosep=True), "/", P.Atom("one.path", nosep=True), "#", P.Atom(f"l{i}", nosep=True), "/", P.Atom(f"m{i}", nosep=True))) for i in range(3)]
+    for integ in ("generic", "rdflib"):
+        out.append(dict(table="prefix(single namespace, '/' inside the fragment)", physical=1, size=1, preset=(8, 1, 8), stmts=[tuple(frag), tuple(reversed(frag))], integ=integ, control=True))
     return out
 
 
